@@ -281,6 +281,28 @@ def overflow_chain_in_sparse(rng, ds):
     return True
 
 
+def sparse_master_as_own_ufo(rng, ds):
+    """The sparse layer becomes the DEFAULT layer of a UFO of its own and its source loses the
+    layerName: a non-default master that simply lacks most glyphs (also the bases of some of its
+    composites)."""
+    sp = (ds.get("meta") or {}).get("sparse")
+    if not sp:
+        return False
+    host = ds["ufos"][sp["host"]]
+    layer = host["layers"].pop(sp["layer"])
+    own = {"glyphs": layer, "kerning": [], "groups": {}, "lib": {}, "features": "",
+           "info": dict(host.get("info") or {}, styleName="SparseUFO")}
+    ds["ufos"].append(own)
+    for s_ in ds["sources"]:
+        if s_.get("layerName") == sp["layer"] and s_["ufo"] == sp["host"]:
+            s_["ufo"] = len(ds["ufos"]) - 1
+            del s_["layerName"]
+            s_["sparse_ufo"] = True
+    sp["host"] = len(ds["ufos"]) - 1
+    sp["as_ufo"] = True
+    return True
+
+
 def sparse_layer_in_support_ufo(rng, ds):
     """Move the sparse layer out of the full master that hosts it into a UFO of its own whose
     default layer holds nothing the layer's composites refer to (sparse masters kept in a
@@ -365,7 +387,11 @@ def gen(rng, idx, tier):
             # make sure the layer holds a composite whose bases are not in the layer
             if nested_chain_in_sparse(rng, ds):
                 opts["_composite_in_sparse"] = True
-        support = sparse_layer_in_support_ufo(rng, ds)
+        if rng.random() < 0.35 and func != "compileInterpolatableTTFs":
+            support = False
+            sparse_master_as_own_ufo(rng, ds)
+        else:
+            support = sparse_layer_in_support_ufo(rng, ds)
     if (ds.get("meta") or {}).get("sparse") and rng.random() < 0.3 and not any(
             g["name"] == ".notdef" for g in ds["ufos"][0]["glyphs"]):
         # a '.notdef' WITHOUT contours of its own (empty, or a composite) in every full master;
@@ -541,7 +567,7 @@ def run(case):
             if name in tt.getGlyphOrder():
                 st = struct(tt, name)
                 # a placeholder in a sparse master (empty base for a composite) is exempt
-                if layer_names[i] and st in (("empty",), ("cff", ())):
+                if (layer_names[i] or ds["sources"][i].get("sparse_ufo")) and st in (("empty",), ("cff", ())):
                     continue
                 seen.append((i, st))
         if len(seen) < 2:
@@ -556,13 +582,18 @@ def run(case):
                 break
     # ---------------- sparse master glyph sets
     for i, (tt, ln) in enumerate(zip(loaded, layer_names)):
-        if not ln:
+        if not ln and not ds["sources"][i].get("sparse_ufo"):
             continue
         bump("sparse_masters")
         if case.get("sparse_omits_axis"):
             bump("sparse_masters_location_without_default_axis")
         src = ds["sources"][i]
-        layer = ds["ufos"][src["ufo"]]["layers"][ln]
+        if ln:
+            layer = ds["ufos"][src["ufo"]]["layers"][ln]
+        else:
+            # a sparse master kept as a UFO of its own: its default layer IS the sparse layer
+            layer = ds["ufos"][src["ufo"]]["glyphs"]
+            bump("sparse_masters_given_as_their_own_ufo")
         layer_names_set = {g["name"] for g in layer} - set(case["skip"])
         got = set(tt.getGlyphOrder())
         if ".notdef" not in got:
